@@ -123,7 +123,12 @@ func (e *encEnv) setLeadership(km *encryptionkm.KeyManager, fault string) error 
 		if err := e.fix.PutRaw(e.leaderKey, "somebody-else"); err != nil {
 			return fmt.Errorf("harness: %v", err)
 		}
-		defer e.fix.PutRaw(e.leaderKey, "c17")
+		// afterwards the member is elected again (the record has to sit on the lease of a campaign of e.ls:
+		// guarded transactions compare the record's lease as well as its value)
+		defer func() {
+			e.fix.DeleteRaw(e.leaderKey, false)
+			e.ls.Campaign(7200, "c17")
+		}()
 	}
 	return km.SetLeadership(e.ls)
 }
